@@ -36,11 +36,18 @@ package main
 //@   requires at-most-one-copy-before: $copies <= 1 && ($copies == 1 ==> caller.tgtExists && !caller.tgtMatches && caller.s.Backup != "")
 //@   requires backup-succeeded-first: caller.tgtExists && !caller.tgtMatches && caller.s.Backup != "" ==> $backupOK
 //@ func (*rootOpts).processRef(ctx, s, src, tgt, action) (err)
-//@   prop C18
+//@   prop C18, C17
 //@   entry-assume $copies == 0 && !$backupOK
 //@   on-call ImageCopy: $copies = $copies + 1
 //@   on-call ImageCopy: $backupOK = ($copies == 1 && result == nil)
+//   C17 holder side of the `parallel` throttle: a sync step holds at most one slot; while it waits
+//   for the source's rate limit it gives the slot back BEFORE it sleeps and asks for a new one
+//   afterwards ($syncSlot: this step holds a slot it has not released)
+//@   entry-assume !$syncSlot
+//@   on-call Acquire: $syncSlot = (result1 == nil)
+//@   on-call var:throttleDone: $syncSlot = false
 //@   loop 0 ()
+//@     invariant slot-held-when-the-rate-limit-is-examined: $syncSlot
 //@     invariant nothing-copied-yet: $copies == 0 && !$backupOK && tgt == old(tgt) && src.Tag == old(src).Tag && src.Repository == old(src).Repository && src.Registry == old(src).Registry
 //@   ensures check-run-writes-nothing: action == actionCheck ==> $copies == 0
 
@@ -201,3 +208,21 @@ package main
 //@   ensures entry-referrer-source-and-target-kept: (old(s.ReferrerSrc) != "" ==> s.ReferrerSrc == old(s.ReferrerSrc)) && (old(s.ReferrerTgt) != "" ==> s.ReferrerTgt == old(s.ReferrerTgt))
 //@   ensures entry-switches-kept: (old(s.DigestTags) != nil ==> s.DigestTags == old(s.DigestTags)) && (old(s.Referrers) != nil ==> s.Referrers == old(s.Referrers)) && (old(s.FastCheck) != nil ==> s.FastCheck == old(s.FastCheck)) && (old(s.ForceRecursive) != nil ==> s.ForceRecursive == old(s.ForceRecursive)) && (old(s.IncludeExternal) != nil ==> s.IncludeExternal == old(s.IncludeExternal))
 //@   ensures tag-and-repo-filters-untouched: s.Tags == old(s.Tags) && s.Repos == old(s.Repos) && s.Source == old(s.Source) && s.Target == old(s.Target) && s.Type == old(s.Type)
+
+// C17 (regsync): the throttle that bounds concurrent sync steps - a step asks for a slot only while it
+// holds none (asking again while holding one waits for a slot only the step itself can free when
+// parallel is 1, and otherwise drops the release function of the first: a lost slot), and every
+// release gives back a slot that is held.
+//@ ghost $syncSlot bool
+//@ callsite (*~/internal/pqueue.Queue[T]).Acquire(ctx, e)
+//@   prop C17
+//@   name throttle.Acquire/sync-step
+//@   in ~/cmd/regsync
+//@   infunc \)\.processRef$
+//@   requires holds-no-slot-yet: !$syncSlot
+//@ callsite var:throttleDone()
+//@   prop C17
+//@   name throttleDone()/sync-step
+//@   in ~/cmd/regsync
+//@   infunc \)\.processRef$
+//@   requires releases-a-held-slot-once: $syncSlot
